@@ -11,15 +11,12 @@ Record case := {
   k_vre : list Q; k_vim : list Q; k_inp : @input Q;
   (* out= argument, if given: its shape and whether its dtype equals the values' dtype *)
   k_outarg : option (list nat * bool);
-  (* measured variants of the two recorded defects (true = defect present) *)
-  k_int_raises : bool; k_mesh1_raises : bool;
   k_out : outc }.
 
 Definition tol : Q := 1 # 1000000000000.
 
 Definition call (k : case) (flat : list Q) : @outcome Q :=
-  interp_call {| int_raises := k_int_raises k; mesh1_raises := k_mesh1_raises k |}
-              (k_kind k) (k_ss k) (k_cvs k) (k_dt k) flat (k_inp k) (k_outarg k).
+  interp_call current (k_kind k) (k_ss k) (k_cvs k) (k_dt k) flat (k_inp k) (k_outarg k).
 
 (* complex values: the real and the imaginary parts are interpolated separately
    (Props.interpolation_linear_in_values) *)
